@@ -308,6 +308,8 @@ structure Pre (K : KeySetOps B) (b : Builder B) (es : List (Nat × Bytes)) (extr
   first : b.first = es.isEmpty
   minKey : ∀ e, es.head? = some e → b.minKey = e.1
   maxKey : ∀ e, es.getLast? = some e → b.maxKey = e.1
+  offMaxEq : b.offMax = b.offsets.foldl Nat.max 0
+  keysVal : b.keys = (es.map (·.1)).foldl K.add K.empty
 
 /-- between operations: no stream write in progress -/
 structure Inv (K : KeySetOps B) (b : Builder B) (es : List (Nat × Bytes)) : Prop where
@@ -315,7 +317,7 @@ structure Inv (K : KeySetOps B) (b : Builder B) (es : List (Nat × Bytes)) : Pro
   closedSW : b.sw.badKey = true
 
 theorem inv_init (K : KeySetOps B) (hK : K.Lawful) : Inv K (Builder.init K) [] := by
-  refine ⟨⟨?_, ?_, ?_, ?_, ?_, ?_, ?_, ?_, ?_⟩, rfl⟩ <;>
+  refine ⟨⟨?_, ?_, ?_, ?_, ?_, ?_, ?_, ?_, ?_, ?_, ?_⟩, rfl⟩ <;>
     simp [Builder.init, Builder.written, Builder.offsets, startsFrom, hK.toList_empty]
 
 /-- which keys pass `ensureIncreasingKey` -/
@@ -359,7 +361,7 @@ theorem write_pre {K : KeySetOps B} {b : Builder B} {es : List (Nat × Bytes)} {
     (h : Pre K b es extra) (d : Bytes) : Pre K (b.write d) es (extra ++ d) := by
   have hw : (b.write d).written = b.written ++ d := by
     simp [Builder.write, Builder.written]
-  refine ⟨?_, ?_, h.offsets, h.offMax, h.keys, h.asc, h.first, h.minKey, h.maxKey⟩
+  refine ⟨?_, ?_, h.offsets, h.offMax, h.keys, h.asc, h.first, h.minKey, h.maxKey, h.offMaxEq, h.keysVal⟩
   · rw [hw, h.written, List.append_assoc]
   · rw [hw]; simp [Builder.write, h.size]
 
@@ -396,7 +398,7 @@ theorem afterWrite_pre {K : KeySetOps B} (hK : K.Lawful) {b : Builder B} {es : L
   refine ⟨_, hnp, ?_, rfl⟩
   have hoffs : (b.register K k off).offsets = b.offsets ++ [off] := by
     simp [Builder.register, Builder.offsets]
-  refine ⟨?_, ?_, ?_, ?_, ?_, ?_, ?_, ?_, ?_⟩
+  refine ⟨?_, ?_, ?_, ?_, ?_, ?_, ?_, ?_, ?_, ?_, ?_⟩
   · show b.written = _
     rw [h.written]; simp
   · exact h.size
@@ -435,6 +437,13 @@ theorem afterWrite_pre {K : KeySetOps B} (hK : K.Lawful) {b : Builder B} {es : L
   · intro e he
     show k = e.1
     simp at he; subst he; rfl
+  · rw [hoffs, List.foldl_append]
+    show (if b.offMax < off then off else b.offMax) = _
+    rw [← h.offMaxEq]
+    simp only [List.foldl_cons, List.foldl_nil, Nat.max_def]
+    split <;> split <;> omega
+  · show K.add b.keys k = _
+    rw [h.keysVal]; simp [List.foldl_append]
 
 /-- `Add` = `acceptStep` on the accepted entries -/
 theorem add_inv {K : KeySetOps B} (hK : K.Lawful) {b : Builder B} {es : List (Nat × Bytes)}
@@ -487,7 +496,7 @@ theorem run_writes_open {K : KeySetOps B} {es : List (Nat × Bytes)} : ∀ (ds :
       simp [Builder.step, Builder.swWrite, hb]
     have hp : Pre K ({ (b.write d) with sw := { (b.write d).sw with size := (b.write d).sw.size + d.length } }) es (extra ++ d) := by
       have := write_pre h d
-      exact ⟨this.written, this.size, this.offsets, this.offMax, this.keys, this.asc, this.first, this.minKey, this.maxKey⟩
+      exact ⟨this.written, this.size, this.offsets, this.offMax, this.keys, this.asc, this.first, this.minKey, this.maxKey, this.offMaxEq, this.keysVal⟩
     obtain ⟨b', h1, h2, h3, h4, h5⟩ := ih _ (extra ++ d) rest hp (by simpa [Builder.write] using hb)
     refine ⟨b', ?_, ?_, h3, ?_, ?_⟩
     · simp only [List.map_cons, List.cons_append, Builder.run, hstep]; exact h1
@@ -516,7 +525,7 @@ theorem stream_inv {K : KeySetOps B} (hK : K.Lawful) {b : Builder B} {es : List 
     rw [h.pre.size, h.pre.written]; simp
   have hpp : Pre K (b.prepare k) es [] :=
     ⟨h.pre.written, h.pre.size, h.pre.offsets, h.pre.offMax, h.pre.keys, h.pre.asc, h.pre.first,
-      h.pre.minKey, h.pre.maxKey⟩
+      h.pre.minKey, h.pre.maxKey, h.pre.offMaxEq, h.pre.keysVal⟩
   simp only [Builder.run, Builder.step]
   by_cases hf : Fresh es k
   · have he : b.ensureIncreasingKey k = true := (ensure_iff h.pre k).mpr hf
@@ -530,7 +539,7 @@ theorem stream_inv {K : KeySetOps B} (hK : K.Lawful) {b : Builder B} {es : List 
     · rw [h1]
       simp only [Builder.run, Builder.step, Builder.commit, h3, Bool.false_eq_true, if_false, hk, ho, h6]
     · rw [acceptStep_fresh (e := (k, ds.flatten)) hf]
-      exact ⟨⟨h7.written, h7.size, h7.offsets, h7.offMax, h7.keys, h7.asc, h7.first, h7.minKey, h7.maxKey⟩, rfl⟩
+      exact ⟨⟨h7.written, h7.size, h7.offsets, h7.offMax, h7.keys, h7.asc, h7.first, h7.minKey, h7.maxKey, h7.offMaxEq, h7.keysVal⟩, rfl⟩
   · have he : b.ensureIncreasingKey k = false := by
       cases hb : b.ensureIncreasingKey k with
       | false => rfl
@@ -915,5 +924,149 @@ theorem loadFiles_spec {K : KeySetOps B} (hK : K.Lawful) (fs : Nat → Option By
           rw [hek] at this; exact hin this
       simp only [List.filterMap_cons, hnone]
       exact ih hrest
+
+/-! ## facts about `accepted` -/
+
+theorem foldl_acceptStep_subset : ∀ (l es : List (Nat × Bytes)), ∀ e ∈ l.foldl acceptStep es, e ∈ es ∨ e ∈ l := by
+  intro l
+  induction l with
+  | nil => intro es e he; exact Or.inl he
+  | cons a t ih =>
+    intro es e he
+    simp only [List.foldl_cons] at he
+    rcases ih _ e he with h | h
+    · unfold acceptStep at h
+      split at h
+      · rcases List.mem_append.mp h with h | h
+        · exact Or.inl h
+        · simp at h; subst h; exact Or.inr (List.mem_cons_self)
+      · split at h
+        · exact Or.inl h
+        · rcases List.mem_append.mp h with h | h
+          · exact Or.inl h
+          · simp at h; subst h; exact Or.inr (List.mem_cons_self)
+    · exact Or.inr (List.mem_cons_of_mem _ h)
+
+theorem accepted_subset (l : List (Nat × Bytes)) : ∀ e ∈ accepted l, e ∈ l := by
+  intro e he
+  rcases foldl_acceptStep_subset l [] e he with h | h
+  · simp at h
+  · exact h
+
+theorem acceptStep_ne_nil (es : List (Nat × Bytes)) (e : Nat × Bytes) : acceptStep es e ≠ [] := by
+  unfold acceptStep
+  cases hl : es.getLast? with
+  | none => simp
+  | some l =>
+    simp only
+    split
+    · intro h; subst h; simp at hl
+    · simp
+
+theorem foldl_acceptStep_ne_nil : ∀ (l es : List (Nat × Bytes)), es ≠ [] → l.foldl acceptStep es ≠ [] := by
+  intro l
+  induction l with
+  | nil => intro es h; exact h
+  | cons a t ih => intro es _; exact ih _ (acceptStep_ne_nil es a)
+
+theorem accepted_ne_nil (l : List (Nat × Bytes)) (h : l ≠ []) : accepted l ≠ [] := by
+  cases l with
+  | nil => exact absurd rfl h
+  | cons a t => exact foldl_acceptStep_ne_nil t _ (acceptStep_ne_nil [] a)
+
+/-- a strictly ascending input is accepted whole -/
+theorem foldl_acceptStep_asc : ∀ (l es : List (Nat × Bytes)),
+    ((es ++ l).map (·.1)).Pairwise (· < ·) → l.foldl acceptStep es = es ++ l := by
+  intro l
+  induction l with
+  | nil => intro es _; simp
+  | cons a t ih =>
+    intro es hp
+    have hf : Fresh es a.1 := by
+      intro z hz
+      have hzm : z ∈ es := List.mem_of_getLast? hz
+      simp only [List.map_append, List.map_cons] at hp
+      exact (List.pairwise_append.mp hp).2.2 z.1 (List.mem_map_of_mem hzm) a.1 (by simp)
+    simp only [List.foldl_cons]
+    rw [acceptStep_fresh hf, ih (es ++ [a]) (by simpa using hp)]
+    simp
+
+theorem accepted_of_asc (l : List (Nat × Bytes)) (h : (l.map (·.1)).Pairwise (· < ·)) : accepted l = l := by
+  have := foldl_acceptStep_asc l [] (by simpa using h)
+  simpa [accepted] using this
+
+/-- an entry whose key is not above the last accepted key changes nothing, wherever it occurs -/
+theorem accepted_skip (l1 l2 : List (Nat × Bytes)) (e : Nat × Bytes) (h : ¬ Fresh (accepted l1) e.1) :
+    accepted (l1 ++ e :: l2) = accepted (l1 ++ l2) := by
+  unfold accepted at *
+  rw [List.foldl_append, List.foldl_append, List.foldl_cons, acceptStep_stale h]
+
+/-! ## the file is a function of the accepted entries -/
+
+theorem close_eq_of_inv {K : KeySetOps B} {b1 b2 : Builder B} {es : List (Nat × Bytes)}
+    (h1 : Inv K b1 es) (h2 : Inv K b2 es) : b1.close K = b2.close K := by
+  have hw : b1.written = b2.written := by rw [h1.pre.written, h2.pre.written]
+  have hs : b1.size = b2.size := by rw [h1.pre.size, h2.pre.size, hw]
+  have ho : b1.offsets = b2.offsets := by rw [h1.pre.offsets, h2.pre.offsets]
+  have hm : b1.offMax = b2.offMax := by rw [h1.pre.offMaxEq, h2.pre.offMaxEq, ho]
+  have hk : b1.keys = b2.keys := by rw [h1.pre.keysVal, h2.pre.keysVal]
+  unfold Builder.close
+  rw [hw, hs, ho, hm, hk]
+
+/-- sufficient size condition for the 32-bit footer fields: value bytes + offset table < 4 GiB -/
+def SizeOK (es : List (Nat × Bytes)) : Prop :=
+  (es.map (·.2)).flatten.length + 4 * es.length + 12 < 4294967296
+
+theorem putUvarintAux_length_le : ∀ (f x : Nat), (putUvarintAux f x).length ≤ f + 1 := by
+  intro f; induction f with
+  | zero => intro x; simp [putUvarintAux]
+  | succ f ih =>
+    intro x; simp only [putUvarintAux]; split
+    · simp
+    · simp only [List.length_cons]; have := ih (x / 128); omega
+
+theorem encodeOffsets_length_le (values : List Nat) (max : Nat) :
+    (encodeOffsets values max).length ≤ 12 + 4 * values.length := by
+  unfold encodeOffsets
+  split
+  · simp
+  · simp only [List.length_append, List.length_cons, List.length_nil]
+    have h1 := putUvarintAux_length_le 10 values.length
+    have h2 : ∀ (l : List Nat), (l.flatMap (fun v => (leBytes 4 (u32 v)).take (minWidth (u32 max)))).length ≤ 4 * l.length := by
+      intro l
+      induction l with
+      | nil => simp
+      | cons x xs ih =>
+        simp only [List.flatMap_cons, List.length_append, List.length_cons, List.length_take, leBytes_length]
+        omega
+    have := h2 values
+    unfold putUvarint
+    omega
+
+/-- any well-formed use of the builder ends in a state holding the accepted entries; if there is
+at least one item the file is written and the reader opened on it holds exactly those entries -/
+theorem build_ok {K : KeySetOps B} (hK : K.Lawful) (items : List Item) :
+    ∃ b, Builder.run K (Builder.init K) (items.flatMap Item.ops) = some b ∧
+      Inv K b (accepted (items.map Item.entry)) ∧
+      (items ≠ [] → (∀ it ∈ items, it.entry.1 < 4294967296) → SizeOK (accepted (items.map Item.entry)) →
+        ∃ file r, b.close K = some file ∧ Reader.open K file = some r ∧
+          TableRepr K r (accepted (items.map Item.entry))) := by
+  obtain ⟨b, hrun, hinv0⟩ := items_inv hK items (inv_init K hK)
+  have hinv : Inv K b (accepted (items.map Item.entry)) := hinv0
+  refine ⟨b, hrun, hinv, ?_⟩
+  intro hne hkeys hsz
+  have hane : accepted (items.map Item.entry) ≠ [] := accepted_ne_nil _ (by simpa using hne)
+  apply close_open hK hinv hane
+  · intro e he
+    have := accepted_subset _ e he
+    obtain ⟨it, hit, rfl⟩ := List.mem_map.mp this
+    exact hkeys it hit
+  · have h1 : b.size = ((accepted (items.map Item.entry)).map (·.2)).flatten.length := by
+      rw [hinv.pre.size, hinv.pre.written]; simp
+    have h2 := encodeOffsets_length_le b.offsets b.offMax
+    have h3 : b.offsets.length = (accepted (items.map Item.entry)).length := by
+      rw [hinv.pre.offsets, startsFrom_length, List.length_map]
+    unfold SizeOK at hsz
+    omega
 
 end LinVerif.Table
